@@ -204,6 +204,40 @@ def _range_cases(rng, n):
     return out
 
 
+def _view_cases(rng, n):
+    """index, a chain of positional selections (repeats, any order, occasionally out of range), queries on the view"""
+    out = []
+    for _ in range(n):
+        nd = rng.randint(1, 5)
+        vocab = rng.randint(1, 3)
+        docs = [[rng.randint(1, vocab) for _ in range(rng.choice([0, 1, 3, 18, 19, 37]))] for _ in range(nd)]
+        keys, cur = [], nd
+        for _ in range(rng.randint(0, 3)):
+            k = [rng.randint(0, max(cur - 1, 0)) for _ in range(rng.randint(0, 4))]
+            if rng.random() < 0.08:
+                k.append(cur + 1)
+            keys.append(k)
+            cur = len(k)
+        t = rng.randint(1, vocab + 1)
+        ph = [rng.randint(1, vocab) for _ in range(2)]
+        avoid = rng.randint(0, 1)
+        bs = rng.randint(1, nd + 1)
+        qs = [["tf", t], ["phrase", ph], ["df", t], ["pos", t], ["lens"]]
+        lhs = (f"match index_g false {bs}%nat {_nll(docs)} with AOk ix => match select_chain (of_index ix "
+               f"{'true' if avoid else 'false'}) {_nll(keys)} with AOk a => Some (v_termfreqs a {t} None None, "
+               f"v_phrase_freqs a {_nl(ph)} None None, v_docfreq a {t}, v_positions a {t}, v_doclengths a) "
+               "| _ => None end | _ => None end")
+
+        def rhs(r):
+            if r[0] != "ok":
+                return "None"
+            a = r[1]
+            return ("Some (" + ", ".join([_api(a[0], _nl), _api(a[1], _nl), _api(a[2], lambda x: str(int(x))),
+                                          _api(a[3], _nll), _nl(a[4][1])]) + ")")
+        out.append({"req": C.sx(["view_query", avoid, bs, docs, keys, qs]), "lhs": lhs, "rhs": rhs})
+    return out
+
+
 PROVIDERS = {
     "C11": ("From SA Require Import Base.Prelude Solr.MM Solr.MM_Spec.\nOpen Scope Z_scope.\n", _mm_cases, 150),
     "C12": ("From SA Require Import Base.Prelude Kernels.Intersect.\nOpen Scope N_scope.\n", _intersect_cases, 120),
@@ -214,6 +248,7 @@ PROVIDERS = {
     "C17": ("From SA Require Import Base.Prelude Index.Index Index.Truncate Query.Phrase.\nOpen Scope N_scope.\n", _index_cases, 80),
     "C03": ("From SA Require Import Base.Prelude Index.Index Index.Truncate Query.Phrase.\nOpen Scope N_scope.\n", _index_cases, 80),
     "C16": ("From SA Require Import Base.Prelude Index.Index Index.Truncate Query.Phrase Query.Range.\nOpen Scope N_scope.\n", _range_cases, 80),
+    "C06": ("From SA Require Import Base.Prelude Index.Index Index.Fast View.View.\nOpen Scope N_scope.\n", _view_cases, 80),
     "C13": ("From SA Require Import Base.Prelude Codec.Codec.\nOpen Scope N_scope.\n", _codec_cases, 120),
 }
 
